@@ -16,7 +16,8 @@ import random
 
 from .. import tablekit as tk
 
-DTYPES = ["int", "flt", "str", "bool", "time"]
+DTYPES = ["int", "flt", "str", "bool", "time", "cat"]
+IKINDS = ["int64", "int64", "range", "int32"]
 MODES = ["clean", "clean", "clean", "newcol_birth", "conflict_initial", "sloppy_initial", "conflict_birth", "sloppy_birth",
          "missing_rows_initial", "nonew_initial", "partial_birth", "zero_pop"]
 
@@ -103,7 +104,26 @@ class C13(tk.TableProp):
                 for col in cols:
                     col[2].pop(k)
             rng.shuffle(cols)
-            return {"a": "upd", "view": 10 + j, "form": "D", "rows": rows, "cols": cols, "catch": False}
+            act = {"a": "upd", "view": 10 + j, "form": "D", "rows": rows, "cols": cols, "catch": False, "ikind": rng.choice(IKINDS)}
+            if len(cols) == 1 and rng.random() < 0.3:
+                act["form"] = "S"
+            return act
+
+        def extras(labels, birth):
+            """what a well-behaved initializer may do besides filling its columns: look at the population, read through the
+            whole-table view that c0 obtained, and - at a birth - try to untrack an existing simulant (rejected: the cell is
+            not null and the value differs) or re-assert its current tracked value"""
+            out = []
+            if rng.random() < 0.25:
+                out.append({"a": "pop", "untracked": rng.random() < 0.5, "via": rng.choice(["sim", "manager", "default"]),
+                            "mutate": rng.random() < 0.5})
+            if rng.random() < 0.25:
+                out.append({"a": "get", "view": 30, "idx": list(labels) + ([0] if labels and labels[0] > 0 else []), "q": ["T"],
+                            "noq": rng.random() < 0.5, "ikind": rng.choice(IKINDS), "mutate": rng.random() < 0.5})
+            if birth and labels and labels[0] > 0 and rng.random() < 0.2:
+                out.append({"a": "upd", "view": 0, "form": "S", "rows": [rng.randrange(labels[0])], "catch": True,
+                            "cols": [["tracked", "bool", [rng.choice(["b0", "b1"])]]]})
+            return out
 
         given = {}      # (col, label) -> token supplied by the owner (to build equal / conflicting duplicates)
 
@@ -183,7 +203,7 @@ class C13(tk.TableProp):
                                     elif special and mode == "partial_birth" and k > 1 and all(d in ("flt", "str", "time") for _, d in comps[q]["cols"]):
                                         fills[f"c{q}"] = [fill(q, labels, drop_row=True)]
                                     else:
-                                        fills[f"c{q}"] = [fill(q, labels)]
+                                        fills[f"c{q}"] = extras(labels, True) + [fill(q, labels)]
                                     if special:
                                         special_done = True
                                     remember(fills[f"c{q}"][-1])
@@ -194,7 +214,13 @@ class C13(tk.TableProp):
                                 n += k
                                 if stop:
                                     aborted = True
-                            elif r < 0.8 and n:
+                            elif r < 0.62:
+                                acts.append({"a": "pop", "untracked": rng.random() < 0.5, "via": rng.choice(["sim", "manager", "default"]),
+                                             "mutate": rng.random() < 0.5})
+                            elif r < 0.68:
+                                acts.append({"a": "get", "view": rng.choice([30, 10]), "idx": "event", "q": ["T"], "noq": rng.random() < 0.5,
+                                             "mutate": rng.random() < 0.5})
+                            elif r < 0.85 and n:
                                 rows = rng.sample(range(n), rng.randint(1, min(n, 3)))
                                 acts.append({"a": "upd", "view": 0, "form": "S", "rows": rows,
                                              "cols": [[rng.choice([None, "tracked"]), "bool", [rng.choice(["b0", "b0", "b1"]) for _ in rows]]]})
@@ -313,6 +339,7 @@ class C13(tk.TableProp):
                         if self._verdict(e2["spec"], prev2, ce) == "fine":
                             fail("well-behaved-initializer-rejected",
                                  f"log {j2}: update {tk.upd_line(e2['spec'])} of a well-behaved initializer was rejected ({e2['out']}) in creation {e['no']}")
+        fails += tk.held_failures(obs) + tk.population_failures(obs) + tk.history_failures(case, obs)
         return fails
 
     @staticmethod
@@ -416,7 +443,7 @@ class C13(tk.TableProp):
         if any(e["t"] == "upd" and cr is None and e["spec"]["view"] == 0 for _, e, _, cr in tk.walk(obs)):
             t.append("untracking-between-births")
         t += ["model-err:" + k for k in obs.get("model_errs", [])]
-        return t
+        return t + tk.form_tags(case, obs)
 
 
 PROP = C13()
